@@ -1450,8 +1450,9 @@ def exponent_cases(rng, tier):
     for _ in range(reps):
         for fk, p in fields:
             for e in boundary_exponents(rng):
-                U = rand_poly(rng, p, rng.range(2, 10), rng.choice([0, 0, 1, 3]))
-                A = rand_poly(rng, p, rng.range(1, 10), 0)
+                # multi-limb exponents: 130..200 squarings in the extracted model, so the modulus stays small there
+                U = rand_poly(rng, p, rng.range(2, 10) if e < 1 << 64 else rng.range(2, 6), rng.choice([0, 0, 1, 3]))
+                A = rand_poly(rng, p, rng.range(1, 10) if e < 1 << 64 else rng.range(1, 6), 0)
                 if p > 2 and len(U) == 2 and rng.chance(1, 2):
                     U = rand_poly(rng, p, 3, 0)
                 cases.append(("powmod", "powmod", fk, p, [A, e, U]))
@@ -1684,27 +1685,78 @@ def precompute_models(drv, streams, nproc=12):
     if not drv or not items:
         MODEL_PRE.clear()
         return
+    # dynamic distribution: the (estimated) heaviest cases first, every driver process pulls the next small batch when it is done
+    import subprocess, threading, time
     items.sort(key=lambda t: -t[0])
-    heap = [(0, k) for k in range(nproc)]
-    chunks = [[] for _ in range(nproc)]
-    for it in items:
-        load, k = heapq.heappop(heap)
-        chunks[k].append(it)
-        heapq.heappush(heap, (load + it[0], k))
+    total = sum(t[0] for t in items)
+    target = max(1, total // (nproc * 60))
+    lock = threading.Lock()
+    nxt = [0]
+    out = [None] * len(items)
+    failed = [False]
+    deadline = time.time() + 1500
+    procs = []
 
-    def one(ch):
-        return vf.run_lines(drv, "".join(t[3] for t in ch), timeout=1500)
-    with ThreadPoolExecutor(max_workers=nproc) as ex:
-        res = list(ex.map(one, chunks))
-    bad = set()
-    for ch, (r, o, e) in zip(chunks, res):
-        if r != 0 or len(o) != len(ch):
-            bad.update(t[1] for t in ch)
-            continue
-        for t, line in zip(ch, o):
+    def take():
+        with lock:
+            i = nxt[0]
+            if i >= len(items):
+                return None
+            j, c = i, 0
+            while j < len(items) and j - i < 200 and (j == i or c + items[j][0] <= target):
+                c += items[j][0]
+                j += 1
+            nxt[0] = j
+            return i, j
+
+    def work(_k):
+        try:
+            pr = subprocess.Popen([drv], stdin=subprocess.PIPE, stdout=subprocess.PIPE, stderr=subprocess.DEVNULL, universal_newlines=True, bufsize=1 << 16)
+        except OSError:
+            failed[0] = True
+            return
+        procs.append(pr)
+        try:
+            while not failed[0]:
+                r = take()
+                if r is None:
+                    break
+                i, j = r
+                pr.stdin.write("".join(items[t][3] for t in range(i, j)))
+                pr.stdin.flush()
+                for t in range(i, j):
+                    line = pr.stdout.readline()
+                    if not line:
+                        failed[0] = True
+                        return
+                    out[t] = line.rstrip("\n")
+            pr.stdin.close()
+            pr.wait(timeout=60)
+        except Exception:
+            failed[0] = True
+
+    threads = [threading.Thread(target=work, args=(k,), daemon=True) for k in range(nproc)]
+    for t in threads:
+        t.start()
+    for t in threads:
+        t.join(max(1.0, deadline - time.time()))
+    timed_out = any(t.is_alive() for t in threads)
+    if timed_out:
+        failed[0] = True
+    for pr in procs:
+        try:
+            if pr.poll() is None:
+                pr.kill()
+        except OSError:
+            pass
+    if timed_out:
+        INCONCLUSIVE.append("extracted-model driver: the batch of all streams timed out (1500 s); streams without a complete model answer run it on their own")
+    for t, line in zip(items, out):
+        if line is not None:
             MODEL_PRE[streams[t[1]][0]][t[2]] = line
-    for si in bad:
-        MODEL_PRE.pop(streams[si][0], None)
+    for label in list(MODEL_PRE):
+        if any(x is None for x in MODEL_PRE[label]):
+            MODEL_PRE.pop(label)
 
 
 def run_stream(chk, label, bins, tag, drv, cases, kthr, sthr, stats):
